@@ -1399,7 +1399,7 @@ func execKvInner(in kvInput, scratch string, prog *kvProgress) (Case, error) {
 				dumpEvs = append(dumpEvs, feventTerm(ev))
 			}
 			respT = C("ROk")
-		case "putddoc", "delddoc", "view":
+		case "putddoc", "delddoc", "view", "getddocs":
 			exist, _, err := k.existingColls()
 			if err != nil {
 				return c, err
@@ -1424,6 +1424,43 @@ func execKvInner(in kvInput, scratch string, prog *kvProgress) (Case, error) {
 				} else {
 					respT = C("ROk")
 				}
+			case "getddocs":
+				opT = C("SGetDDocs", S(st.Coll))
+				dds, e := col.GetDDocs()
+				if e != nil {
+					respT = rErr(e)
+				} else {
+					var lines []string
+					for dn, dd := range dds {
+						lines = append(lines, dn)
+						// GetDDoc must agree with the listing
+						if one, e1 := col.GetDDoc(dn); e1 != nil || len(one.Views) != len(dd.Views) {
+							lines = append(lines, dn+"!GetDDoc disagrees")
+						}
+						for vn, vd := range dd.Views {
+							m := -1
+							for j, src := range mapSources {
+								if src == vd.Map {
+									m = j
+								}
+							}
+							if vd.Reduce != "" {
+								m += len(mapSources)
+							}
+							lines = append(lines, fmt.Sprintf("%s/%s=%d", dn, vn, m))
+						}
+					}
+					for _, dn := range []string{"dd", "dd2", "other"} {
+						if _, listed := dds[dn]; !listed {
+							if _, e1 := col.GetDDoc(dn); e1 == nil {
+								lines = append(lines, dn+"!GetDDoc finds what GetDDocs does not list")
+							}
+						}
+					}
+					sort.Strings(lines)
+					respT = C("RRows", strsTerm(lines))
+				}
+				k.cells["getddocs"] = true
 			case "delddoc":
 				opT = C("SDelDDoc", S(st.Coll), S(st.DDoc))
 				if e := col.DeleteDDoc(st.DDoc); e != nil {
